@@ -8,6 +8,7 @@ import (
 	"fmt"
 	"math/rand"
 	"sort"
+	"strconv"
 	"strings"
 )
 
@@ -90,7 +91,7 @@ func C13Random(r *rand.Rand, o C13Opts) C13Data {
 		d.Kind = "dense"
 	}
 	for i := 0; i < o.NSamples; i++ {
-		d.Samples = append(d.Samples, fmt.Sprintf("%s%d", []string{"pcr", "S", "x_"}[o.NSamples%3], i+1))
+		d.Samples = append(d.Samples, fmt.Sprintf("%s%d", []string{"pcr", "S", "x_", ""}[(o.NSamples+len(o.Alphabet))%4], i+1)) // "": numbered samples (1, 2, ...)
 	}
 	type meta struct {
 		depth, sons int
@@ -295,7 +296,12 @@ func (d C13Data) Fasta() []byte {
 				strings.Join(st, ","), strings.Join(wt, ","), total%2 == 0, total%3)
 		}
 		if d.Attr {
-			fmt.Fprintf(&b, ">%s {\"count\":%d,\"%s\":\"%s\"%s}\n", s.Id, total, d.Tag, keys[0], stale)
+			if _, err := strconv.Atoi(keys[0]); err == nil && keys[0][0] != '0' {
+				// a numbered sample is written as the number it is (the header parsers type it as an integer)
+				fmt.Fprintf(&b, ">%s {\"count\":%d,\"%s\":%s%s}\n", s.Id, total, d.Tag, keys[0], stale)
+			} else {
+				fmt.Fprintf(&b, ">%s {\"count\":%d,\"%s\":\"%s\"%s}\n", s.Id, total, d.Tag, keys[0], stale)
+			}
 		} else if d.Stale {
 			parts := make([]string, len(keys))
 			for i, k := range keys {
